@@ -257,8 +257,8 @@ def run_history(ctx, k, L):
                 for j, x in enumerate(ks):
                     if not np.array_equal(np.asarray(cnt.values)[:, j], np.asarray(g[x].count(b, ep).values)):
                         ctx.fail("oracle", "group count column %d != member count" % x, dict(inp))
-                tc = g.trial_count(ep, b)
-                for j, x in enumerate(ks):
+                tc = g.trial_count(ep, b) if all(isinstance(g[x], nap.Ts) for x in ks) else []
+                for j, x in enumerate(ks if len(tc) else []):
                     if not np.array_equal(np.nan_to_num(tc[j], nan=-1), np.nan_to_num(g[x].trial_count(ep, b), nan=-1)):
                         ctx.fail("oracle", "group trial_count[%d] != member trial_count" % x, dict(inp))
                 st2, en2 = gen.rand_canonical(rng, 3, 34)
@@ -277,7 +277,7 @@ def run_history(ctx, k, L):
                                  expected=[ns_arr(ref.t), ref.values.tolist()])
                 ctx.count("group_level_ops")
             except Exception as e:
-                ctx.count("group_level_raised:" + type(e).__name__)
+                ctx.fail("oracle", "group-level count / trial_count / value_from raised %r" % (e,), dict(inp))
     return head + (";".join(ops) or "-"), obs, inp
 
 
